@@ -1,7 +1,7 @@
 // VF-BUILD: tbb whitebox
 // C02 (1) - concurrent_monitor: a sleeper's prepare_wait / re-check / commit_wait (or cancel_wait) against a notifier's
 // state change + notify_one / notify_all / notify(pred) / abort_all never loses a wake-up.  White-box, real code.
-// -p sleepers=N (1..2)  -p notify=one|all|pred|abort|relaxed  -p notifiers=M (each sets its own flag bit)
+// -p sleepers=N (1..2)  -p notify=one|all|pred|abort|relaxed  -p notifiers=M (each sets its own flag bit)  -p plainset=1 (store instead of fetch_add)
 #include "concurrent_monitor.h"
 #include "vfh.h"
 #include <atomic>
@@ -15,7 +15,8 @@ static void scenario() {
         if (i < sleepers) { r1::concurrent_monitor::thread_context ctx{std::uintptr_t(i + 1)};
             try { for (;;) { mon.prepare_wait(ctx); if (flag.load(std::memory_order_relaxed) == notifiers) { mon.cancel_wait(ctx); break; } if (mon.commit_wait(ctx) && flag.load(std::memory_order_relaxed) == notifiers) break; } woke[i] = 1; }
             catch (tbb::detail::r1::user_abort&) { aborted[i] = 1; } }
-        else { flag.fetch_add(1, std::memory_order_relaxed);   // the condition becomes true with the last notifier
+        else { if (notifiers == 1 && vf_param_int("plainset", 0)) flag.store(1, std::memory_order_relaxed);   // a plain store: only the monitor's own fence orders it before the wait-set test (matters under -tso)
+            else flag.fetch_add(1, std::memory_order_relaxed);   // the condition becomes true with the last notifier
             if (streq(how, "one")) { for (int k = 0; k < sleepers; k++) mon.notify_one(); }
             else if (streq(how, "all")) mon.notify_all();
             else if (streq(how, "pred")) mon.notify([](std::uintptr_t c) { return c >= 1; });
